@@ -73,6 +73,16 @@ func (c compactEngine) Generate(rng *rand.Rand, prop string, thorough bool) *Pla
 		cfg.SyncMode = 1 + rng.Intn(2)
 		cfg.BgSyncMs = 0
 	}
+	// 1 run in 4 (not a chain run): the index grows past a split threshold DURING the concurrent phase
+	grow := !chain && rng.Intn(3) == 0
+	if os.Getenv("VERIF_SHAPE") == "grow" {
+		chain, grow = false, true
+	}
+	if grow {
+		cfg.NKeys = 30 + rng.Intn(30)
+		cfg.Family = []int{int(KFTiny), int(KFMixed)}[rng.Intn(2)]
+		cfg.MaxSeg = []uint32{1024, 2048, 4096}[rng.Intn(3)]
+	}
 	p := &Plan{Property: prop, Engine: "compact", Cfg: cfg}
 	if c.ploss {
 		p.Engine = "compact-ploss"
@@ -102,11 +112,35 @@ func (c compactEngine) Generate(rng *rand.Rand, prop string, thorough bool) *Pla
 	p.Epochs = [][]Op{append(pre, genClient(rng, cfg, 5+rng.Intn(40), map[string]int{"put": 60, "del": 25, "sync": 2}, all, &id, sizes)...)}
 	nw := 1 + rng.Intn(2)
 	parts := splitKeys(cfg.NKeys, nw)
+	if grow {
+		// preload only the first 17-21 keys (several times: garbage for compaction); the writers own the
+		// remaining, new keys, so that the index crosses its load factor and splits while compaction runs
+		nPre := 17 + rng.Intn(5)
+		// every key once (these records stay live: compaction has to re-check and copy them, which is where
+		// a concurrent split hurts), then a third of them again so that every segment has some garbage
+		var pl []Op
+		for _, k := range rng.Perm(nPre) {
+			id++
+			pl = append(pl, Op{K: "put", Key: k, ID: id, Size: sizes[rng.Intn(len(sizes))]})
+			if rng.Intn(3) == 0 {
+				id++
+				pl = append(pl, Op{K: "put", Key: k, ID: id, Size: sizes[rng.Intn(len(sizes))]})
+			}
+		}
+		p.Epochs = [][]Op{pl}
+		parts = make([][]int, nw)
+		for k := nPre; k < cfg.NKeys; k++ {
+			parts[k%nw] = append(parts[k%nw], k)
+		}
+	}
 	for w := 0; w < nw; w++ {
 		if len(parts[w]) == 0 {
 			parts[w] = []int{0}
 		}
 		ww := map[string]int{"put": 50, "del": 30, "get": 10, "has": 3}
+		if grow {
+			ww = map[string]int{"put": 80, "del": 8, "get": 10, "has": 2}
+		}
 		if c.ploss && cfg.SyncMode == 1 {
 			ww["sync"] = 12
 		}
